@@ -1,5 +1,7 @@
 """C01 — The solver always holds exactly the model's flux-balance problem."""
 from contracts import c01_lp, c02_rename  # noqa
+from contracts import c01_populate as POP
+from contracts import c02_rxn_add_metabolites as RAM
 from props._generic import run_property, replay_with_driver
 
 LEVEL = "other"
@@ -54,7 +56,9 @@ def fallback(key, case, rec):
 
 
 def run(rep):
-    run_property(rep, KEYS, fallback=fallback, more=[(RENAME_KEYS, c02_rename.HOOKS)], explanation=(
+    run_property(rep, KEYS, fallback=fallback, more=[(RENAME_KEYS, c02_rename.HOOKS), ([POP.KEY], POP.HOOKS),
+                                                        (RAM.KEYS, RAM.HOOKS)],
+                 lemmas=lambda: POP.lemmas() + [o for o in RAM.lemmas() if "rows" in o.name or "undo" in o.name], explanation=(
         "Deductive (kernel): Reaction.update_variable_bounds is proved, for all extended-real bounds with lb<=ub, lb<+inf, ub>-inf, "
         "to give the forward/reverse variable pair bounds such that the net flux f-r ranges over exactly [lb,ub] (both inclusions, "
         "the statement's wording), to follow the documented three-branch map, to keep both variables non-negative and to touch no "
@@ -69,12 +73,28 @@ def run(rep):
         "original body left id and index changed: defect found with this contract, repaired in /repo acce6db). Stated preconditions: "
         "the object is listed in its model's well-formed DictList and the solver is in step at entry (names optlang accepted); for a "
         "metabolite also that optlang accepts the new name (its constraint is renamed first, a refused name raises before anything "
-        "changed - not modelled as a case). The closure of the invariant over all public operations and histories is NOT proved: it is covered "
+        "changed - not modelled as a case). Model._populate_solver (the function that creates every variable, row and "
+        "coefficient; lists of any length, five loop invariants): one add_cons_vars call with exactly one new Constraint(Zero, "
+        "name=<id>, lb=0, ub=0) per listed metabolite; every listed reaction ends with a forward variable registered under its "
+        "id and a distinct reverse variable under its reverse id (a name registered at entry keeps its object - the re-use branch "
+        "taken when a removal is reverted - otherwise both are new and handed over together); update_variable_bounds applied by "
+        "its proved contract after the single solver.update(), hence the net flux ranges over exactly the reaction's bounds; for "
+        "every metabolite m of a listed reaction with coefficient c the row named by m's id (the entry one, else a new one with "
+        "lb=ub=0) holds c for the forward and -c for the reverse variable; every other matrix entry is as at entry, existing "
+        "solver objects keep names and bounds. Reaction.add_metabolites (contract shared with C02): the solver row of every "
+        "touched metabolite holds its final coefficient for the forward and its negative for the reverse variable, 0 for a removed "
+        "metabolite, no other cell written; lemma rows-preserved: if every row mirrored the stoichiometry at entry it does at exit. "
+        "The closure of the invariant over all public operations and histories is NOT proved: it is covered "
         "by the bounded driver (exhaustive/seeded histories with the GLPK problem read back through swiglpk after every step)."),
         trusted=["optlang Variable.set_bounds / model.variables lookup (assumed contracts)", "md5-based reverse_id injective",
                  "reverse_id is a function of the current id (hook in contracts/c02_rename.py); lookup of a solver variable by name "
                  "finds the reaction's variable only while it carries the current (reverse) id",
-                 "optlang name setters and model.constraints[name] (assumed contracts over the heap field opt_name)"])
+                 "optlang name setters and model.constraints[name] (assumed contracts over the heap field opt_name)",
+                 "_populate_solver: problem.Variable / problem.Constraint(Zero, ...) allocate fresh objects with an all-zero column / "
+                 "row; add_cons_vars registers objects by name (new, pairwise different names obliged at each call); container "
+                 "look-ups by the ghost name maps; set_linear_coefficients writes exactly the given entries; AutoVivification a dict "
+                 "of dicts keyed by object identity; reaction.metabolites a finite map in a ghost enumeration",
+                 "Reaction.add_metabolites: model.constraints[name] / set_linear_coefficients as a ghost matrix (assumed)"])
 
 
 def replay(payload):
